@@ -4,6 +4,7 @@
    tenpy/algorithms/*.py on every run, so these theorems are about what the code says now. *)
 From TenpyV Require Import Base.Prelude Base.PyLib Gen.G_trotter Gen.G_acct.
 From TenpyV Require Import Model.Trotter Model.TimeAcct Proofs.TrotterP Proofs.TimeAcctP.
+From TenpyV Require Import Model.TrotterMerge Proofs.TrotterP2.
 From Coq Require Import QArith String.
 Open Scope Z_scope.
 
@@ -26,6 +27,53 @@ Proof.
   - exact trotter_symmetric_4.
   - exact trotter_symmetric_4opt.
 Qed.
+
+(* orders 1, 2, 4, '4_opt', EVERY N >= 1 (induction on N): the N-step schedule, with each entry (ti, parity)
+   replaced by (time_steps[ti], parity) (`timed`), equals the N-fold repetition of the one-step schedule
+   (decomposition for N = 1) after MERGING adjacent entries of equal parity by adding their time polynomials
+   (exp(a H_k) exp(b H_k) = exp((a+b) H_k)): the code's N-step pattern merges the last half step of one
+   time step with the first half step of the next into the entry with time index 1 (orders 2, 4) resp. 6
+   ('4_opt', a1_twice), whose time is exactly twice the half step.  Equality: same length, same parities,
+   times equal as polynomials (PyLib.peqb: every coefficient Qeq).  Hence the N-step schedule inherits the
+   order of the one-step pattern.
+   `merge`, `sched_eqb` (Model/TrotterMerge.v) have no correspondence checker of their own: they are tied to
+   the code only through `timed`, `time_steps_gen`, `decomposition_gen` (regenerated from tebd.py and
+   correspondence-checked), which they are applied to. *)
+Theorem T14_trotter_merge : forall o, In o orders -> forall N, 1 <= N ->
+  exists ds stepsN steps1,
+    time_steps_gen o = Some ds /\ decomposition_gen o N = Some stepsN /\
+    decomposition_gen o 1 = Some steps1 /\
+    sched_eqb (merge (timed ds stepsN))
+              (merge (List.concat (repeat (timed ds steps1) (Z.to_nat N)))) = true.
+Proof. exact trotter_merge_all. Qed.
+
+(* `merge` computes a normal form (no two adjacent entries of equal parity; normal forms are fixed points)
+   and does not change the time applied to either parity class, for every value x of the symbol *)
+Theorem T14_merge_normal_form : forall l,
+  alternating (merge l) = true /\ (alternating l = true -> merge l = l) /\ merge (merge l) = merge l /\
+  forall x k, (sched_time x k (merge l) == sched_time x k l)%Q.
+Proof. exact merge_normal_form. Qed.
+
+(* N = 3, order 4: both sides evaluated; the raw lists differ (31 entries against 33, the repetition has
+   two seams with two adjacent odd half steps each), the merged ones agree and have 31 entries *)
+Example T14_merge_example :
+  match time_steps_gen (OInt 4), decomposition_gen (OInt 4) 3, decomposition_gen (OInt 4) 1 with
+  | Some ds, Some s3, Some s1 =>
+      let lhs := timed ds s3 in
+      let rhs := List.concat (repeat (timed ds s1) 3) in
+      sched_eqb (merge lhs) (merge rhs) = true /\
+      (List.length lhs = 31 /\ List.length rhs = 33 /\ List.length (merge rhs) = 31)%nat /\
+      sched_eqb lhs rhs = false /\ alternating rhs = false /\ merge lhs = lhs
+  | _, _, _ => False
+  end.
+Proof. vm_compute. repeat split. Qed.
+
+(* merge is not trivial: two adjacent odd steps of time 1/2 become one odd step of time 1 *)
+Example T14_merge_nontrivial :
+  merge [(pconst (1 # 2), 1); (pconst (1 # 2), 1); (pconst 1, 0)] = [(padd (pconst (1 # 2)) (pconst (1 # 2)), 1); (pconst 1, 0)] /\
+  sched_eqb (merge [(pconst (1 # 2), 1); (pconst (1 # 2), 1); (pconst 1, 0)]) [(pconst 1, 1); (pconst 1, 0)] = true /\
+  sched_eqb (merge [(pconst (1 # 2), 1); (pconst (1 # 2), 1); (pconst 1, 0)]) [(pconst (1 # 2), 1); (pconst 1, 0)] = false.
+Proof. vm_compute. repeat split. Qed.
 
 (* one odd and one even evolve_step together touch every existing bond exactly once (any L; finite: bonds
    1..L-1, infinite: bonds 0..L-1) -- with T14_trotter_time: every bond is evolved by exactly N*dt *)
@@ -64,3 +112,5 @@ Print Assumptions T14_bond_coverage.
 Print Assumptions T14_accounting_exact.
 Print Assumptions T14_all_engines_single_add.
 Print Assumptions T14_all_engines_exact.
+Print Assumptions T14_trotter_merge.
+Print Assumptions T14_merge_normal_form.
